@@ -216,8 +216,44 @@ def evaluate(pid, cases, oc=None, compare_outside_domain=False):
                 if len(oc.samples) < 6 and (len(oc.nontrivial) % 97 == 1 or len(oc.samples) < 2):
                     oc.samples.append({'label': c['label'], 'ro': ro_text, 'msg': msg_text,
                                        'outcome': {'err': o['err'], 'warns': o['warns']}})
+    if pid == 'C06':
+        collection_route(oc, [(c, t, o) for c, t, o in zip(cases, texts, impl_obs)
+                              if 'err' in o and not o['err'] and len(o.get('warns') or []) >= 2 and 'live_history' not in c])
     oc.rule = RULES[pid]
     return oc
+
+
+def collection_route(oc, triples, limit=400):
+    """C06 through the other documented route: the same running order and message as a two-document
+    collection merged non-strictly and strictly must report exactly the warnings `ro += msg` reports."""
+    import warnings
+    from . import impl
+    from mosromgr.moscollection import MosCollection
+    step = max(1, len(triples) // limit)
+    for c, (ro_text, msg_text), o in triples[::step]:
+        for strict in (False, True):
+            try:
+                with warnings.catch_warnings():
+                    warnings.simplefilter('ignore')
+                    mc = MosCollection.from_strings([ro_text, msg_text], allow_incomplete=True)
+            except Exception:  # noqa: BLE001 - not a collection (other roID, odd message IDs): nothing to compare
+                break
+            with warnings.catch_warnings(record=True) as w:
+                warnings.simplefilter('always')
+                try:
+                    mc.merge(strict=strict)
+                    err = None
+                except Exception as e:  # noqa: BLE001
+                    err = impl.err_name(e)
+            ws = [x for x in impl.lib_warnings(w) if x != 'MosMergeNonStrictWarning']
+            oc.evaluations += 1
+            oc.count('collection-route')
+            if err is not None or ws != o['warns'] or TJ.to_tree(mc.ro.xml) != o['ro']:
+                oc.failing.append({'kind': 'add', 'label': c['label'] + f':via-collection(strict={strict})', 'cls': c['cls'],
+                                   'ro_text': ro_text, 'msg_text': msg_text, 'route': {'strict': strict},
+                                   'spec': 'merged through a collection the message must report the same warnings (one per unresolvable/duplicate '
+                                           'element) and give the same running order as `ro += msg`',
+                                   'impl': {'err': err, 'warns': ws, 'direct_warns': o['warns']}})
 
 
 def c07_extra(o):
@@ -241,6 +277,12 @@ def c07_extra(o):
 def replay_add(pid, rec):
     """Re-run one recorded (ro_text, msg_text) on the current tree; returns (still_failing, detail)."""
     from . import lean
+    if 'route' in rec:
+        oc2 = Outcome(pid)
+        o = _impl_one((rec['ro_text'], rec['msg_text']))
+        if 'err' in o:
+            collection_route(oc2, [({'label': 'replay', 'cls': rec.get('cls', '?')}, (rec['ro_text'], rec['msg_text']), o)])
+        return bool(oc2.failing), {'failing': [f['impl'] for f in oc2.failing]}
     if 'live_history' in rec:
         # object re-use / direct msg.merge(ro): only the live history reproduces the step
         from . import hist_run
